@@ -103,13 +103,27 @@ func (w *World) harnessCall(fr *frame, fn *ssa.Function, args []value) *hres {
 		if k <= 0 {
 			panic(engineError{"vfChoice: k must be positive"})
 		}
-		t := w.newInput(argStr(args[0]), 8)
-		w.assume(fromTerm(tt.Cmp(OpUlt, t, tt.Const(uint64(k), 8))))
+		cw := uint8(8) // 8-bit selector; more than 256 alternatives need a wider one (Const would silently truncate k)
+		if k > 256 {
+			cw = 16
+		}
+		if k > 65536 {
+			panic(engineError{"vfChoice: more than 65536 alternatives"})
+		}
+		t := w.newInput(argStr(args[0]), cw)
+		w.assume(fromTerm(tt.Cmp(OpUlt, t, tt.Const(uint64(k), cw))))
 		return &hres{w.concretize(t, k+1)}
 	case "vfLen":
 		lo, hi := argInt(args[1]), argInt(args[2])
-		t := w.newInput(argStr(args[0]), 8)
-		w.assume(fromTerm(tt.Cmp(OpUle, t, tt.Const(uint64(hi-lo), 8))))
+		lw := uint8(8)
+		if hi-lo > 255 {
+			lw = 16
+		}
+		if hi-lo > 65535 || hi < lo {
+			panic(engineError{"vfLen: bad range"})
+		}
+		t := w.newInput(argStr(args[0]), lw)
+		w.assume(fromTerm(tt.Cmp(OpUle, t, tt.Const(uint64(hi-lo), lw))))
 		return &hres{uint64(lo) + w.concretize(t, hi-lo+2)}
 	case "vfRange":
 		lo, hi := int64(argInt(args[1])), int64(argInt(args[2]))
